@@ -55,12 +55,11 @@ EVALS = {"n": 0}
 
 
 def graph_snapshot(self):
-    g = self._dependency_graph
-    nodes = sorted((i, g[i].clazz.__qualname__) for i in g.node_indices())
-    edges = sorted((type(g.get_edge_data_by_index(e)).__name__ if hasattr(g, "get_edge_data_by_index") else "", s, t,
-                    getattr(getattr(d, "field", None), "name", None))
-                   for (s, t, d), e in zip(g.weighted_edge_list(), g.edge_indices()))
-    return nodes, [(type(d).__name__, s, t, getattr(getattr(d, "field", None), "name", None)) for s, t, d in sorted(g.weighted_edge_list(), key=lambda x: (x[0], x[1], type(x[2]).__name__, str(getattr(getattr(x[2], "field", None), "name", ""))))]
+    """(nodes, typed edges) of a diagram through its public accessors"""
+    nodes = sorted(w.clazz.__qualname__ for w in self.wrapped_classes)
+    edges = sorted(("Inheritance", e.source.clazz.__qualname__, e.target.clazz.__qualname__, "") for e in self.inheritance_relations)
+    edges += sorted((type(e).__name__, e.source.clazz.__qualname__, e.target.clazz.__qualname__, e.field.field.name) for e in self.associations)
+    return nodes, edges
 
 
 def unchanged(self, OLD):
@@ -199,7 +198,6 @@ def run(case, ctx):
         C["diagrams_built"] += 1
         problems = []
         inherit, assoc, flags = independent_analysis(mod, classes)
-        g = cd._dependency_graph
         nodes = sorted(w.clazz.__name__ for w in cd.wrapped_classes)
         if nodes != sorted(c.__name__ for c in classes):
             problems.append(f"nodes {nodes} != classes {sorted(c.__name__ for c in classes)}")
